@@ -81,3 +81,10 @@ def run(ctx):
     # the session is lost while a call is between its state check and the fetch of the transport (gate-held, real sockets)
     import props.C09 as c09
     c09.run(ctx, test="^TestVerifLostWhilePreparing$", name="C02-lost")
+    # R: the hand-over of a message to the write pump is one select which also watches the caller's context and the end of the
+    # transport, on both transports; the caller's select in both Invokes watches its context (re-read from the syntax tree)
+    facts = c09.shape(ctx)
+    if facts:
+        need = [("struct", "wr_arms"), ("struct", "swr_arms"), ("close", "inv_connctx")]
+        missing = ["%s.%s" % (a, k) for a, k in need if not facts.get(a, {}).get(k)]
+        ctx.oblige(not missing, "C02_context_arms", "(a select which waits on behalf of a caller has an arm for the caller's context and for the end of the transport: %s no longer found in the sources)" % ", ".join(missing))
